@@ -225,6 +225,7 @@ def plan(spec, model):
             if not spec.operators: raise Unreachable(f'{n} is an operator but no operator is configured')
             steps.append((n, f'OPER {spec.operators[0][0]} {spec.operators[0][1]}'))
         if model.get(f'away_{n}'): steps.append((n, f'AWAY :{spec.away_text}'))
+        if model.get(f'capneg_{n}'): steps.append((n, 'CAP LS'))        # re-opens the capability negotiation of a registered connection
     if need_helper: steps.append((HELPER, 'QUIT'))
     return nicks, need_helper, steps
 
